@@ -63,9 +63,14 @@ def wnoOk (wl : List Int) : Prop :=
   ((52 ∈ wl ∨ 53 ∈ wl) → -1 ∈ wl) ∧ ((-52 ∈ wl ∨ -53 ∈ wl) → 1 ∈ wl)
 instance (wl : List Int) : Decidable (wnoOk wl) := by unfold wnoOk; exact inferInstance
 
+/-- BYWEEKNO absent, or on the complement of D-C01c with a week start 0..6 (FREQ ≥ DAILY) -/
+def wArgOk (a : Args) : Prop :=
+  a.byweekno = none ∨ (someWith a.byweekno wnoOk ∧ 0 ≤ a.wkst.getD 0 ∧ a.wkst.getD 0 ≤ 6)
+instance (a : Args) : Decidable (wArgOk a) := by unfold wArgOk; exact inferInstance
+
 /-- **the families with an exactness theorem** -/
 def SupportedBy (a : Args) : Family → Prop
-  | .daily => a.freq = 3 ∧ baseOk a ∧ a.byweekno = none ∧ a.byeaster = none
+  | .daily => a.freq = 3 ∧ baseOk a ∧ wArgOk a ∧ a.byeaster = none
   | .weekly => a.freq = 2 ∧ baseOk a ∧ a.byweekno = none ∧ a.byeaster = none ∧
       (a.bysetpos = none ∨ Cal.weekdayOfOrd (Spec.RRule.startOrd a) = a.wkst.getD 0) ∧
       (0 ≤ a.wkst.getD 0 ∧ a.wkst.getD 0 ≤ 6) ∧ untilOk a
@@ -78,15 +83,15 @@ def SupportedBy (a : Args) : Family → Prop
       someWith a.byeaster (fun el => ∀ o ∈ el, -80 ≤ o ∧ o ≤ 250)
   | .yearlyWeekno => a.freq = 0 ∧ baseOk a ∧ a.byeaster = none ∧ plainDays a ∧
       (0 ≤ a.wkst.getD 0 ∧ a.wkst.getD 0 ≤ 6) ∧ someWith a.byweekno wnoOk
-  | .hourly => a.freq = 4 ∧ baseOk a ∧ a.byweekno = none ∧ a.byeaster = none ∧ a.byhour = none ∧
+  | .hourly => a.freq = 4 ∧ baseOk a ∧ wArgOk a ∧ a.byeaster = none ∧ a.byhour = none ∧
       minutesOk a ∧ secondsOk a
-  | .hourlyByhour => a.freq = 4 ∧ baseOk a ∧ a.byweekno = none ∧ a.byeaster = none ∧
+  | .hourlyByhour => a.freq = 4 ∧ baseOk a ∧ wArgOk a ∧ a.byeaster = none ∧
       someWith a.byhour (fun l => ∀ x ∈ l, 0 ≤ x ∧ x ≤ 23) ∧ minutesOk a ∧ secondsOk a
-  | .minutely => a.freq = 5 ∧ baseOk a ∧ a.byweekno = none ∧ a.byeaster = none ∧ a.byhour = none ∧
+  | .minutely => a.freq = 5 ∧ baseOk a ∧ wArgOk a ∧ a.byeaster = none ∧ a.byhour = none ∧
       a.byminute = none ∧ secondsOk a
-  | .minutelyByminute => a.freq = 5 ∧ baseOk a ∧ a.byweekno = none ∧ a.byeaster = none ∧ a.byhour = none ∧
+  | .minutelyByminute => a.freq = 5 ∧ baseOk a ∧ wArgOk a ∧ a.byeaster = none ∧ a.byhour = none ∧
       someWith a.byminute (fun l => ∀ x ∈ l, 0 ≤ x ∧ x ≤ 59) ∧ secondsOk a
-  | .secondly => a.freq = 6 ∧ baseOk a ∧ a.byweekno = none ∧ a.byeaster = none ∧ a.byhour = none ∧
+  | .secondly => a.freq = 6 ∧ baseOk a ∧ wArgOk a ∧ a.byeaster = none ∧ a.byhour = none ∧
       a.byminute = none ∧ a.bysecond = none
 
 instance (a : Args) (f : Family) : Decidable (SupportedBy a f) := by
